@@ -125,10 +125,10 @@ Proof. exact protobuf_nonvacuous. Qed.
    on every kind of column, virtual fields, custom protobuf fields scalar / array; the model is compared byte
    for byte with MarshalJSON / MarshalText under generated mapping files on every run) ---- *)
 
-(* for EVERY compiled configuration whose output names need no escaping and EVERY message: the JSON form is one
-   well-formed RFC 8259 object -- whatever bytes the string-rendered values hold *)
+(* for EVERY compiled configuration and EVERY message: the JSON form is one well-formed RFC 8259 object -- whatever
+   bytes the string-rendered values hold and whatever characters the configured (renamed) field names have *)
 Theorem c13_json_any_config_valid : forall c m out,
-  names_plain c -> format_json c m = Some out -> json_value out.
+  format_json c m = Some out -> json_value out.
 Proof. exact format_json_valid. Qed.
 Print Assumptions c13_json_any_config_valid.
 
@@ -220,7 +220,7 @@ Definition ex_customs : list custom :=
    {| cName := "cust1"; cIndex := 1002; cType := PTString; cArray := false |}].
 Definition ex_afmt : afmt :=
   {| fFields := ["src_addr"; "cust0"; "time_received_ns"; "cust1"; "icmp_name"; "proto"; "dst_addr"];
-     fRename := [("proto", "protocol")];
+     fRename := [("proto", "pro""to<col>")];
      fRender := [("time_received_ns", "datetimenano"); ("cust1", "etype"); ("dst_addr", "none")];
      fKeys := ["src_addr"; "cust0"] |}.
 Definition ex_msg : msg :=
@@ -231,11 +231,10 @@ Definition ex_msg : msg :=
 Example c13_any_config_nonvacuous :
   match compile_fmt ex_afmt ex_customs with
   | Some c =>
-      forallb (fun s => plain_key (bytes_of_string (final_name c s))) (cFields c) = true /\
       format_json c ex_msg = Some (bytes_of_string
-        "{""src_addr"":""10.0.0.1"",""cust0"":[7,9],""time_received_ns"":""2023-11-14T22:13:20.123Z"",""icmp_name"":""unknown"",""protocol"":""TCP"",""dst_addr"":""0a000002""}") /\
+        "{""src_addr"":""10.0.0.1"",""cust0"":[7,9],""time_received_ns"":""2023-11-14T22:13:20.123Z"",""icmp_name"":""unknown"",""pro\""to\u003ccol\u003e"":""TCP"",""dst_addr"":""0a000002""}") /\
       format_text c ex_msg = Some (bytes_of_string
-        "src_addr=10.0.0.1 cust0=[7,9] time_received_ns=2023-11-14T22:13:20.123Z icmp_name=unknown protocol=TCP dst_addr=0a000002")
+        "src_addr=10.0.0.1 cust0=[7,9] time_received_ns=2023-11-14T22:13:20.123Z icmp_name=unknown pro""to<col>=TCP dst_addr=0a000002")
   | None => False
   end.
 Proof. vm_compute. repeat split. Qed.
